@@ -1,6 +1,7 @@
 //! rvh — the verification harness for al8n/rarena. Drives the real code and logs; never judges.
 mod common;
 mod conc;
+mod openf;
 mod seq;
 
 fn main() {
@@ -12,6 +13,7 @@ fn main() {
   match args[1].as_str() {
     "seq" => seq::run(&args[2..]),
     "conc" => conc::run(&args[2..]),
+    "open" => openf::run(&args[2..]),
     other => {
       eprintln!("unknown subcommand {other}");
       std::process::exit(2);
